@@ -37,10 +37,10 @@ ADDED_SESSION7 = {
     "C13": "QUERIES.forward (rows carry the keys of the container the caller built); TIMEOUT.row time column.",
     "C14": "C.query-edges result without a family (an expiry seen between the two sides of the c-inference query ends flagged, never in an answer from one side); TIMEOUT.row: the time column of a flagged row is a number.",
     "C15": "CNF.pool: no second id pool in the state; MCS.violated on clause tables whose owners share clauses.",
-    "C16": "ZRANK.recursion start index with the metadata store of unknown content; ACCEPT.decision on every subclass that spells out conditional_acceptance; FACT.shape no fact skipped.",
-    "C17": "C.minima-roles of compile_constraint; C.query-edges result without a family; MCS.violated with shared clauses; ACCEPT.decision on subclass overrides.",
-    "C18": "CUSTOM.init (explicit signature names the bit positions; ranks and conditionals forwarded); ACCEPT.decision: tests of the query's own attributes (weak) are cases of the input.",
-    "C20": "STATE.pickled: __setstate__ on a concrete state with a partial rank table gives back exactly that table.",
+    "C16": "ZRANK.recursion start index with the metadata store of unknown content; ACCEPT.decision on every subclass that spells out conditional_acceptance; FACT.shape no fact skipped; FACTORY.dispatch (create_preocf).",
+    "C17": "C.minima-roles of compile_constraint; C.query-edges result without a family; MCS.violated with shared clauses; ACCEPT.decision on subclass overrides; IMPACTS.observe (save_impacts hands out the vector the object holds, unchanged); FACTORY.dispatch.",
+    "C18": "CUSTOM.init (explicit signature names the bit positions; ranks and conditionals forwarded); ACCEPT.decision: tests of the query's own attributes (weak) are cases of the input; FACTORY.dispatch.",
+    "C20": "STATE.pickled: __setstate__ on a concrete state with a partial rank table gives back exactly that table; IMPACTS.observe.",
 }
 
 LEVEL_TEXT = ("static conformance of the code's shape to the obligation table of the clauses listed in DESIGN.md "
